@@ -67,6 +67,11 @@ class Plane:
             mask = np.array(mask)
 
         mask[mask != 0] = 1
+
+        # a cube holding a single segment describes a monolithic plane
+        if mask.ndim == 3 and mask.shape[0] == 1:
+            mask = mask[0]
+
         self._mask = mask
 
         self._slice = _plane_slice(self._mask)
